@@ -29,7 +29,7 @@ Record prims := {
   p_cfg : kv -> option table * table     (* Config.dialect / Config.serialization_strategy tables of a class *)
 }.
 
-Inductive tstep := TNewType | TOptional | TElement | TMember.
+Inductive tstep := TNewType | TOptional | TElement | TMember | TTupleItem | TNamedField | TTypedKey.
 
 Inductive node :=
 | NType (k: tstep) (decl: kv)                       (* re-entry for a part of the current type, declared type decl *)
